@@ -1488,6 +1488,14 @@ func runTokens(c *engine.Ctx) engine.Result {
 		},
 	}
 	if c.Replay != nil {
+		var rk struct {
+			Kind string `json:"kind"`
+			Seq  int    `json:"seq"`
+		}
+		if err := json.Unmarshal(c.Replay, &rk); err == nil && rk.Kind == "reencoded-key" {
+			runTokensReencodedKey(c, rk.Seq)
+			return res
+		}
 		var pc tkPairCase
 		if err := json.Unmarshal(c.Replay, &pc); err == nil && pc.Backend != "" {
 			runTokensPair(c, pc)
